@@ -264,7 +264,9 @@ def read_cgsmiles(pattern):
         # if the branch ends we reset the anchor
         # and set branching False unless we are in
         # a nested branch
-        if stop <= len(pattern) and branch_stop:
+        # several branches may end behind the same residue ('...[#residue]))')
+        close_from = stop
+        while stop <= len(pattern) and branch_stop:
             branching = False
             prev_node = branch_anchor.pop()
             if branch_anchor:
@@ -275,12 +277,13 @@ def read_cgsmiles(pattern):
             # We need to know how often the branch has
             # to be added so we first identify the branch
             # terminal character ')' called eon_a.
-            eon_a = _find_next_character(pattern, [')'], stop)
+            eon_a = _find_next_character(pattern, [')'], close_from)
+            next_pos = eon_a + 1
             # Then we check if the expansion character
             # is next.
             if (eon_a+1 < len(pattern) and pattern[eon_a+1] == "|") or\
-               (eon_a+2 < len(pattern) and pattern[eon_a+2] == "|"):
-                if pattern[eon_a+2] == "|":
+               (eon_a+2 < len(pattern) and pattern[eon_a+1] in symbol_to_order and pattern[eon_a+2] == "|"):
+                if pattern[eon_a+1] in symbol_to_order:
                     anchor_order = symbol_to_order[pattern[eon_a+1]]
                     recipe = recipes[prev_node][0]
                     recipes[prev_node][0] = (recipe[0], recipe[1], anchor_order)
@@ -333,14 +336,20 @@ def read_cgsmiles(pattern):
             #================================================
             #     bond orders for after branches            #
             #================================================
+                next_pos = eon_b
                 if pattern[eon_b] in symbol_to_order:
                     prev_bond_order = symbol_to_order[pattern[eon_b]]
+                    next_pos = eon_b + 1
             elif eon_a+1 < len(pattern) and pattern[eon_a+1] in symbol_to_order:
                 prev_bond_order = symbol_to_order[pattern[eon_a+1]]
+                next_pos = eon_a + 2
             # if all branches are done we need to reset the lists
             # when all nested branches are completed
             if len(branch_anchor) == 0:
                 recipes = defaultdict(list)
+            # the enclosing branch ends here as well
+            branch_stop = next_pos < len(pattern) and pattern[next_pos] == ')'
+            close_from = next_pos
 
     # raise some errors for strange stuff
     if cycle:
